@@ -4,6 +4,7 @@ import (
 	"fmt"
 	"os"
 	"path/filepath"
+	"strings"
 	"time"
 
 	"verif/drv"
@@ -143,7 +144,8 @@ func JSONSweep(run *ev.Run, backend string, maxDocs int, stride int) {
 			}
 			before := drv.CanonState(in.Dump())
 			path := filepath.Join(dir, fmt.Sprintf("w%d.json", w))
-			os.Remove(path)
+			// the target already exists and is longer than what will be written
+			os.WriteFile(path, []byte(strings.Repeat("stale content of a previous export ", 200)), 0o644)
 			r := drv.Exec(in, m.Op{K: "export", Coll: "src", Text: path})
 			run.Add("evaluations", 1)
 			if r.Panic != nil || r.Err != nil {
@@ -198,6 +200,28 @@ func JSONSweep(run *ev.Run, backend string, maxDocs int, stride int) {
 		"malformed-id":      `[{"_id":"zz"}]`,
 		"numeric-id":        `[{"_id":5}]`,
 		"empty-file":        ``,
+	}
+	// a file whose documents carry no _id: imported with fresh generated ids
+	noIDs := filepath.Join(dir, "no-ids.json")
+	os.WriteFile(noIDs, []byte(`[{"x":1},{"x":2.5e3,"y":{"z":[1e2,"s"]}},{"x":9007199254740992}]`), 0o644)
+	if r := drv.Exec(in, m.Op{K: "import", Coll: "noids", Text: noIDs}); r.Panic != nil || r.Err != nil {
+		run.Violation("import-noids|"+backend, fmt.Sprintf("[%s] importing documents without _id failed: %s", backend, r), nil)
+	} else {
+		docsGot, _, _ := drv.FindAllMaps(in, &m.Q{Coll: "noids"})
+		seenX := map[string]bool{}
+		ids := map[string]bool{}
+		for _, d := range docsGot {
+			id, _ := d["_id"].(string)
+			if !m.ValidID(id) || ids[id] {
+				run.Violation("import-noids-id|"+backend, fmt.Sprintf("[%s] imported document got _id %q (not a fresh canonical UUID)", backend, id), nil)
+			}
+			ids[id] = true
+			seenX[m.OrderCanon(d["x"])] = true
+		}
+		if len(docsGot) != 3 || !seenX[m.OrderCanon(float64(1))] || !seenX[m.OrderCanon(float64(2500))] || !seenX[m.OrderCanon(float64(9007199254740992))] {
+			run.Violation("import-noids-values|"+backend, fmt.Sprintf("[%s] importing 3 documents without _id gave %d documents with x values %v", backend, len(docsGot), seenX), nil)
+		}
+		drv.Exec(in, m.Op{K: "dropColl", Coll: "noids"})
 	}
 	type fm struct{ name, coll, path string }
 	modes := []fm{{"existing-name", "other", good}, {"existing-name-self", "src", good}, {"missing-file", "imp", filepath.Join(dir, "no-such-file.json")}, {"directory-as-file", "imp", dir}}
